@@ -153,6 +153,40 @@ def reconstrain_cases():
     return uniq, n
 
 
+def nonstrict_cases():
+    """a NON-strict record whose constraints name one observation dimension twice (positive and negative index) is valid,
+    reports strict == False, and resizes like any other record"""
+    fails, n = [], 0
+    for shape, cons in (((4,), {0: 4, -1: 4}), ((2, 3), {1: 3, -1: 3}), ((2, 3), {0: 2, -2: 2})):
+        for which, val in (("dt", 0.5), ("duration", 5.0), ("inclusive", True)):
+            n += 1
+            m = Module()
+            inp = dict(obs_shape=list(shape), constraints={str(k): v for k, v in cons.items()}, setter=which, value=val)
+            try:
+                rec = RecordTensor(m, "x", 1.0, 2.0, torch.zeros(*shape), constraints=dict(cons), strict=False)
+            except Exception as e:  # noqa: BLE001
+                fails.append({"what": "C13/nonstrict/construction_refused", "input": inp, "expected": "a valid non-strict record", "actual": f"{type(e).__name__}: {e}"})
+                continue
+            if rec.strict is not False or not rec.valid:
+                fails.append({"what": "C13/nonstrict/flag_or_validity", "input": inp, "expected": dict(strict=False, valid=True), "actual": dict(strict=rec.strict, valid=rec.valid)})
+                continue
+            for k in range(3):
+                rec.push(torch.full(shape, float(k + 1)))
+            try:
+                setattr(rec, which, val)
+            except Exception as e:  # noqa: BLE001
+                fails.append({"what": "C13/nonstrict/resize_raises", "input": inp, "expected": "resized", "actual": f"{type(e).__name__}: {e}"})
+                continue
+            want = size(rec.dt, rec.duration, rec.inclusive)
+            if rec.recordsz != want or rec.value.shape[0] != want or not rec.valid:
+                fails.append({"what": "C13/nonstrict/size_formula", "input": inp, "expected": want, "actual": [rec.recordsz, list(rec.value.shape), rec.valid]})
+    uniq = []
+    for f in fails:
+        if not any(u["what"] == f["what"] for u in uniq):
+            uniq.append(f)
+    return uniq, n
+
+
 def sweep(tier="quick", seed=0, unsupported=()):
     failures, cases = [], 0
     cfgs = [(1.0, 0.0, False), (1.0, 0.0, True), (1.0, 3.0, True), (0.5, 2.0, False), (0.3, 1.0, True), (1.3, 2.6, False), (0.1, 0.3, True), (2.0, 5.0, True)]
@@ -171,6 +205,11 @@ def sweep(tier="quick", seed=0, unsupported=()):
     for f in f2:
         if not any(x["what"] == f["what"] for x in failures):
             failures.append(f)
+    f4, n4 = nonstrict_cases()
+    for f in f4:
+        if not any(x["what"] == f["what"] for x in failures):
+            failures.append(f)
+    cases += n4
     f3, n3 = reconstrain_cases()
     for f in f3:
         if not any(x["what"] == f["what"] for x in failures):
@@ -206,6 +245,10 @@ def replay_native(rp):
     if "cfg0" in i:
         f = resize_case(tuple(i["cfg0"]), tuple(i["cfg1"]), i["fill"], i["storage"], tuple(i["order"]))
         return {"reproduced": f is not None, "failure": f}
+    if str(rp.get("what", "")).startswith("C13/nonstrict"):
+        f, _ = nonstrict_cases()
+        f = [x for x in f if x["what"] == rp.get("what")]
+        return {"reproduced": bool(f), "failure": f[0] if f else None}
     if str(rp.get("what", "")).startswith("C13/reconstrain"):
         f, _ = reconstrain_cases()
         f = [x for x in f if x["what"] == rp.get("what")]
